@@ -31,16 +31,16 @@ Definition p1_check (bs : list batch) (l : list pout) : bool :=
       || forallb (fun b => negb (is_done l (b_id b))
                            || forallb (fun e => Nat.eqb (released_count l (pg e)) 1) (b_events b)) bs).
 
-(* P3: the events of a finished ordered batch enter `process` in batch order (those of a
-   finished unordered batch: each exactly once, the order must be the arrival order, which the
-   driver supplies as [expect]) *)
+(* P3: the events of an ordered batch enter `process` in batch order: at any time the handled ones
+   are a prefix of the batch, and all of it once the batch is done *)
 Definition eqN_list (a b : list N) : bool :=
   (Nat.eqb (length a) (length b)) && forallb (fun p => fst p =? snd p) (combine a b).
 Definition handles_of (l : list pout) (b : batch) : list N :=
   filter (fun g => memN g (map pg (b_events b))) (handles l).
 Definition p3_check (bs : list batch) (l : list pout) : bool :=
-  forallb (fun b => negb (is_done l (b_id b)) || negb (b_ordered b)
-                    || eqN_list (handles_of l b) (map pg (b_events b))) bs.
+  forallb (fun b => negb (b_ordered b)
+                    || (eqN_list (handles_of l b) (firstn (length (handles_of l b)) (map pg (b_events b)))
+                        && (negb (is_done l (b_id b)) || eqN_list (handles_of l b) (map pg (b_events b))))) bs.
 
 (* P4: an event whose Lamport time exceeds highest-known + 1 + limit.Num when it is handled is
    never handed to Process.  [highest-known] is recomputed here from the log: the initial value
